@@ -24,7 +24,7 @@ package config
 // parseCommon: for each of the inheritable keys exactly which fields change and to what (frame + value);
 // an unknown or empty key and a malformed value are errors; the wrapErrors/wrapErrorsUsing conflict is an error.
 //@ func parseCommon
-//@   props C12 C10 C11
+//@   props C12 C10 C11 C13
 //@   requires@C13 c != nil
 //@   assigns c.*
 //@   ensures !KnownCommonKey(cmd) ==> err != nil && unchangedExcept(c) && !fieldSetting
@@ -100,7 +100,10 @@ package config
 //@   ensures forall k string :: has(lookup, k) == (old(has(lookup, k)) || has(MethodLinePkgs(sourcePackage, lines), k))
 
 //@ func ConverterConfig.PackageID
-//@   props C15
+//@   props C15 C13
 //@   pure
 //@   requires@C13 conf != nil
 //@   ensures result == ite(conf.OutputPackageName == "", conf.OutputPackagePath, conf.OutputPackagePath + ":" + conf.OutputPackageName)
+
+//@ func parseMethodMap
+//@   props C13
